@@ -75,6 +75,9 @@ def build(run):
     crate_e, lemma_e = mms_lemma(run)
     run.kani(crate_e, [lemma_e], timeout=600)
 
+    crate_f, lemma_f = bookmark_lemma(run)
+    run.kani(crate_f, [lemma_f], timeout=600)
+
     # ---- K-C09-c: the navigation position never becomes the illegal sentinel id (shared with C11: one rule application) ---------------
     from checks import C11
     crate_n, lemmas_n = C11.kernel(run, "c09nav")
@@ -236,3 +239,74 @@ def mms_lemma(run):
                        role=lambda v, o: "base-id-copied-to-mmultiscripts",
                        covers=["postscript onto a token with an author id reachable", "prescript reachable", "base pulled out of a script reachable"],
                        claim="the id of the new mmultiscripts differs from the id its base keeps")
+
+
+# ======================================================================================================================
+# K-C09-f: the name written into a bookmark mark is the node's id itself, not the id run through the speech rules
+BM_SHIM = r"""
+/// format! builds its result through core::fmt (does not get through CBMC in useful time): replaced by a recorder of the ARGUMENTS, each followed by U+0001;
+/// the literal format string around them is the subject of the Z-C13 tag lemmas
+macro_rules! format { ($f:literal $(, $a:expr)*) => {{ let mut s = String::new(); $( s.push_str(AsRef::<str>::as_ref(&$a)); s.push('\u{1}'); )* s }}; }
+macro_rules! bail { ($($t:tt)*) => { return Err(Error) }; }
+#[derive(Debug)] pub struct Error;
+type Result<T> = core::result::Result<T, Error>;
+pub trait ChainErr<T> { fn chain_err<F: FnOnce() -> String>(self, f: F) -> Result<T>; }
+impl<T> ChainErr<T> for Result<T> { fn chain_err<F: FnOnce() -> String>(self, _f: F) -> Result<T> { self } }
+#[derive(Clone, Copy)] pub struct Element<'c>(core::marker::PhantomData<&'c ()>);
+pub struct Context;
+pub struct SpeechRulesWithContext<'c, 's, 'm> { ctx: Context, p: core::marker::PhantomData<(&'c (), &'s (), &'m ())> }
+impl<'c, 's, 'm> SpeechRulesWithContext<'c, 's, 'm> { pub fn get_context(&mut self) -> &mut Context { &mut self.ctx } }
+/// stand-in for sxd_xpath's value types: the xpath of a bookmark ("@id", "*[1]/@id", "parent/@id") selects attribute nodes
+#[derive(Clone, Copy)] pub struct Node { id: &'static str }
+impl Node { pub fn string_value(&self) -> String { String::from(self.id) } }
+pub struct Nodeset { n: usize, node: Node }
+pub struct NodeIter { left: usize, node: Node }
+impl Iterator for NodeIter { type Item = Node; fn next(&mut self) -> Option<Node> { if self.left == 0 { None } else { self.left -= 1; Some(self.node) } } }
+impl Nodeset { pub fn size(&self) -> usize { self.n } pub fn iter(&self) -> NodeIter { NodeIter { left: self.n, node: self.node } } pub fn document_order(&self) -> NodeIter { self.iter() } }
+#[allow(dead_code)] pub enum Value { String(String), Nodeset(Nodeset), Number(f64), Boolean(bool) }
+pub struct MyXPath { id: &'static str }
+impl MyXPath {
+    /// what MyXPath::replace does with the selected attribute: SpeechRulesWithContext::replace_chars(value) -- the SPOKEN form of the text
+    /// (a one-character string is looked up in the unicode rules: 'a' -> "<say-as interpret-as='characters'>a</say-as>" under SSML; longer strings are left alone)
+    pub fn replace<T: From<String>>(&self, _r: &mut SpeechRulesWithContext, _m: Element) -> Result<T> {
+        Ok(T::from(if self.id.len() == 1 { String::from("<say-as>") } else { String::from(self.id) }))
+    }
+    pub fn evaluate(&self, _c: &mut Context, _m: Element) -> Result<Value> { Ok(Value::Nodeset(Nodeset { n: 1, node: Node { id: self.id } })) }
+    pub fn to_string(&self) -> String { String::new() }
+}
+#[allow(dead_code)] pub enum TTSCommandValue { Number(f64), String(String), XPath(MyXPath) }
+"""
+
+BM_HARNESS = r"""
+fn go(id: &'static str, want: &str) {
+    let mut r = SpeechRulesWithContext { ctx: Context, p: core::marker::PhantomData };
+    let out = compute_bookmark_element(&TTSCommandValue::XPath(MyXPath { id }), "mark name", &mut r, Element(core::marker::PhantomData)).unwrap();
+    cover!(id.len() == 1, "one-letter id reachable");
+    cover!(id.len() == 4, "generated id reachable");
+    assert!(out.as_bytes() == want.as_bytes(), "the bookmark's name is not the id of the node (the id was translated like text to be spoken)");
+}
+HARNESS(bookmark_name_is_the_raw_id, 40) {
+    // solver-selected literal cases: a one-letter id, a two-letter id, an id in MathCAT's own format
+    match sym::below(3) { 0 => go("a", "mark name\u{1}a\u{1}"), 1 => go("ab", "mark name\u{1}ab\u{1}"), _ => go("M1-2", "mark name\u{1}M1-2\u{1}") }
+}
+"""
+
+
+def api_bookmark(vals=None, out=None):
+    res = mcprobe([("pref", "TTS SSML"), ("pref", "Bookmark true"), ("mathml", "<math><mi id='a'>x</mi><mo id='b'>+</mo><mi id='yy'>y</mi></math>"), "speech"])
+    sp = res[-1][1] if res[-1][0] == "OK" else ""
+    ok = "<mark name='a'/>" in sp and "<mark name='b'/>" in sp and "<mark name='yy'/>" in sp
+    return not ok, {"script": "TTS=SSML, Bookmark=true; set_mathml with one-letter author ids; get_spoken_text", "speech": res[-1]}
+
+
+def bookmark_lemma(run):
+    t = slicer.Source.get("src/tts.rs")
+    f = t.find("impl TTS", "fn replace_string", "fn compute_bookmark_element")
+    run.uses(f)
+    crate = kani_run.Crate("c09mark", BM_SHIM + f.text + BM_HARNESS)
+    run.bound("K-C09-f", "compute_bookmark_element (tts.rs) compiled verbatim, for the ids 'a', 'ab', 'M1-2' selected by an xpath that yields one attribute node")
+    run.assume("sxd_xpath values and MyXPath replaced by stand-ins: MyXPath::replace returns the SPOKEN form of the selected text (as SpeechRulesWithContext::replace_chars does for a one-character string), "
+               "MyXPath::evaluate returns the selected attribute node; error text (bail!, chain_err) not built; format! replaced by a recorder of its arguments")
+    return crate, dict(id="K-C09-f.bookmark_name_is_the_raw_id", harness="bookmark_name_is_the_raw_id", api=lambda v, o: api_bookmark(),
+                       role=lambda v, o: "bookmark-id-translated", covers=["one-letter id reachable", "generated id reachable"],
+                       claim="the mark written for a node is <mark name='ID'/> with ID exactly the node's id attribute")
